@@ -101,6 +101,7 @@ type synFrame struct {
 	Args   string
 	File   string
 	HasPC  bool
+	RawLoc bool   // the location line is printed without its leading tab
 	PC     uint64 // PC in this process's address space (before relocation)
 	Tail   string // text after pc=...? (none in real reports; kept empty)
 }
@@ -143,6 +144,8 @@ func (r *synReport) render() string {
 			fmt.Fprintf(&b, "%s(%s)\n", f.Symbol, f.Args)
 			if f.HasPC {
 				fmt.Fprintf(&b, "\t%s +0x1d sp=0xc00001 fp=0xc00002 pc=%#x\n", f.File, f.PC)
+			} else if f.RawLoc {
+				fmt.Fprintf(&b, "%s\n", f.File)
 			} else {
 				fmt.Fprintf(&b, "\t%s\n", f.File)
 			}
@@ -356,7 +359,26 @@ func c14Synthetic(t *testing.T) {
 					break
 				}
 			}
-			switch k := rnd.Intn(9); k {
+			switch k := rnd.Intn(10); k {
+			case 9:
+				// the location line of a frame without pc= reads like the runtime's
+				// "frames elided" marker (which belongs between frames, not inside a
+				// pair); paths of the other frames contain a parenthesis
+				kind = "marker-text-as-location"
+				for gi := range vr.Gs {
+					fs := append([]synFrame(nil), vr.Gs[gi].Frames...)
+					for fi := range fs {
+						if !fs[fi].HasPC {
+							fs[fi].File, fs[fi].RawLoc = fmt.Sprintf("...%d frames elided...", 1+rnd.Intn(99)), true
+							if gi == firstRunning {
+								res.Hit("marker-text-in-running-goroutine")
+							}
+						} else {
+							fs[fi].File = "C:/Program Files (x86)/go/" + canary + "Z.go:7"
+						}
+					}
+					vr.Gs[gi].Frames = fs
+				}
 			case 8:
 				// a very long panic value (a dumped data structure, a quoted log):
 				// the goroutines come a thousand or more lines into the report
@@ -456,7 +478,7 @@ func c14Synthetic(t *testing.T) {
 			res.Sample(map[string]any{"case": i, "report_head": fmt.Sprintf("%.400s", text), "name": trunc(name), "err": fmt.Sprint(err)})
 		}
 	}
-	res.Require("named", "error", "no-running-goroutine", "more-than-16-frames", "truncated-name", "variant:message", "variant:long-message", "variant:files-with-pc-text", "variant:multiline-message", "variant:extra-sentinel-later", "variant:other-symbols")
+	res.Require("named", "error", "no-running-goroutine", "more-than-16-frames", "truncated-name", "variant:message", "variant:long-message", "variant:files-with-pc-text", "variant:multiline-message", "variant:extra-sentinel-later", "variant:other-symbols", "variant:marker-text-as-location", "marker-text-in-running-goroutine")
 	if err := res.Write(); err != nil {
 		t.Fatal(err)
 	}
